@@ -321,9 +321,127 @@ def shard_savefreq(item):
     return T
 
 
+# ------------------------------------------------------------------ (E) the real interrupt handler
+KICK = {'armed': False, 'at': 0, 'count': 0, 'fired_iters': None, 'iters': 0}
+
+
+def _kick_watch(x):
+    """module-level (pickled by reference, so copies and restarted solvers share it): sends this process a real SIGINT at
+    the chosen cost call of the watched Solve"""
+    import os, signal
+    if KICK['armed']:
+        KICK['count'] += 1
+        if KICK['count'] == KICK['at'] and KICK['fired_iters'] is None:
+            KICK['fired_iters'] = KICK['iters']
+            os.kill(os.getpid(), signal.SIGINT)
+
+
+def _kick_cb(x):
+    KICK['iters'] += 1
+
+
+TRANSFERS = ['same', 'copy.copy', 'copy.deepcopy', 'dill.copy', 'SaveSolver/LoadSolver']
+ANSWERS = [['exit'], ['sol', 'exit'], ['bogus', 'call', 'exit'], ['cont']]
+
+
+def shard_sigint(item):
+    """(E) enable_signal_handler(); [an earlier Solve to a limit]; transfer; Solve during which a real SIGINT arrives at
+    cost call j and the prompt is answered by a script.  'exit' must stop the run that is RUNNING: at most the iteration
+    in progress completes.  'cont' must not stop it."""
+    import os, copy, dill, builtins, signal
+    cfg = item
+    T = Tally()
+    tmp = tempfile.mkdtemp(prefix='c05_')
+    real_input = builtins.input
+    try:
+        for prior in (0, 1, 2):
+            for how in TRANSFERS:
+                if how != 'same' and prior == 0:
+                    continue
+                for answers in ANSWERS:
+                    for j in (1, 4, 9):
+                        lab = solverlab.Lab(dict(cfg, instrument=False), tmp)
+                        s = lab.solver
+                        lab.cost.watch = _kick_watch
+                        KICK.update(armed=False, at=j, count=0, fired_iters=None, iters=0)
+                        script = list(answers)
+                        def scripted(prompt=''):
+                            return script.pop(0) if script else 'exit'
+                        builtins.input = scripted
+                        case = {'cfg': cfg, 'part': 'E', 'prior_solves': prior, 'transfer': how, 'answers': answers, 'kick_at_call': j}
+                        sig = {'solver': cfg['solver'], 'part': 'sigint', 'transfer': how, 'prior_solves': min(prior, 1), 'answer': answers[-1]}
+                        T.count('traces')
+                        try:
+                            with lab._env():
+                                s.enable_signal_handler()
+                                for n in range(prior):
+                                    s.SetEvaluationLimits(2, None, new=True)
+                                    s.Solve(callback=_kick_cb)
+                                if how == 'copy.copy':
+                                    t = copy.copy(s)
+                                elif how == 'copy.deepcopy':
+                                    t = copy.deepcopy(s)
+                                elif how == 'dill.copy':
+                                    t = dill.copy(s)
+                                elif how == 'SaveSolver/LoadSolver':
+                                    from mystic.solvers import LoadSolver
+                                    fn = os.path.join(tmp, 'sig_%d.pkl' % os.getpid())
+                                    s.SaveSolver(fn)
+                                    t = LoadSolver(fn)
+                                else:
+                                    t = s
+                                t.SetEvaluationLimits(12, None, new=True)
+                                g0 = int(t.generations)
+                                KICK.update(armed=True, count=0, iters=0)
+                                t.Solve(callback=_kick_cb)
+                                KICK['armed'] = False
+                                msg = t.Terminated(info=True)
+                        except KeyboardInterrupt:
+                            KICK['armed'] = False
+                            T.violate(dict(sig, clause='sigint_not_caught'), case,
+                                      'enable_signal_handler() was called, yet a SIGINT during Solve reached the default handler | solver=%s' % cfg['solver'])
+                            continue
+                        except Exception as e:
+                            KICK['armed'] = False
+                            if KICK['fired_iters'] is None:
+                                raise
+                            T.violate(dict(sig, clause='raised', op='Solve', error=type(e).__name__), case,
+                                      'SIGINT at cost call %d answered %r during Solve of the %s solver (after %d earlier Solve): %s: %s | solver=%s'
+                                      % (j, answers, how, prior, type(e).__name__, e, cfg['solver']))
+                            continue
+                        finally:
+                            builtins.input = real_input
+                            KICK['armed'] = False
+                        T.count('transitions', KICK['iters'])
+                        if KICK['fired_iters'] is None:
+                            T.hist('E_sigint_never_sent', 1); continue
+                        after = KICK['iters'] - KICK['fired_iters']
+                        T.hist('E_iterations_completed_after_the_request', '%s:%d' % (answers[-1], min(after, 3)))
+                        if answers[-1] == 'exit':
+                            if after > 1:
+                                T.violate(dict(sig, clause='began_iteration_when_stopped', reason='exit'), case,
+                                          'SIGINT at cost call %d answered %r during Solve of the %s solver (after %d earlier Solve): %d further iterations completed, stop message %r | solver=%s'
+                                          % (j, answers, how, prior, after, (msg or '')[:60], cfg['solver']))
+                            elif not msg:
+                                T.violate(dict(sig, clause='solve_returned_unstopped'), case, 'Solve returned but Terminated(info=True) is empty | solver=%s' % cfg['solver'])
+                        else:
+                            if int(t.generations) - g0 < 12 and (msg or '').startswith('SolverInterrupt'):
+                                T.violate(dict(sig, clause='message_untrue', kind='SolverInterrupt'), case,
+                                          'SIGINT answered %r (continue), yet the run stopped with %r after %d generations | solver=%s'
+                                          % (answers, msg[:60], int(t.generations) - g0, cfg['solver']))
+                        T.nontriv(('E', cfg['solver'], prior, how, tuple(answers), j, after))
+                        T.state(('E', cfg['solver'], prior, how, answers[-1], j, after, int(t.generations)))
+    finally:
+        builtins.input = real_input
+        signal.signal(signal.SIGINT, signal.default_int_handler)
+        shutil.rmtree(tmp, ignore_errors=True)
+    T.sample({'cfg': cfg, 'part': 'E', 'prior_solves': 1, 'transfer': 'copy.deepcopy', 'answers': ['exit'], 'kick_at_call': 4})
+    return T
+
+
 def _dispatch(item):
     kind, payload = item
-    return {'A': shard_general, 'B': shard_struct, 'C': shard_wrappers, 'D': shard_savefreq}[kind](payload)
+    return {'A': shard_general, 'B': shard_struct, 'C': shard_wrappers, 'D': shard_savefreq, 'E': shard_sigint}[kind](payload)
 
 
 def configs(ctx):
@@ -343,18 +461,24 @@ def run(ctx):
     items += [('B', (cfg, k)) for cfg in cfgs for k in (0, 1, 2, 3)]
     items += [('C', (w, c)) for w in ('fmin', 'fmin_powell', 'diffev', 'diffev2') for c in ('sphere', 'steps')]
     items += [('D', cfg) for cfg in cfgs if cfg['term'] == 'never']
-    ctx.bounds = {'save_frequencies': FREQS, 'exit_during_iteration': EXIT_ITERS, 'depth_general': depth, 'alphabet': ALPHABET, 'limit_values_g': GS, 'limit_values_e': ES,
+    items += [('E', cfg) for cfg in cfgs if cfg['term'] == 'never']
+    ctx.bounds = {'sigint_part': {'transfers': TRANSFERS, 'answer_scripts': ANSWERS, 'earlier_solves': [0, 1, 2], 'signal_at_cost_call': [1, 4, 9]},
+                  'save_frequencies': FREQS, 'exit_during_iteration': EXIT_ITERS, 'depth_general': depth, 'alphabet': ALPHABET, 'limit_values_g': GS, 'limit_values_e': ES,
                   'struct_prefix_steps': [0, 1, 2, 3], 'tails': TAILS, 'configs': len(cfgs)}
     ctx.rule = ("(A) all op sequences <= depth over the 10-op alphabet; (B) Step^k . SetEvaluationLimits(g,e,new) . tail for all "
                 "5x4x2 limit triples, k<=3 and 9 tails; (C) 4 wrappers x 30 limit pairs x 2 costs. distinct_nontrivial counts "
                 "(A) shards and (B)/(C) individual limit configurations")
-    ctx.assumptions = ['the exit request is modelled by setting the flag the signal handler sets',
+    ctx.assumptions = ['the exit request is modelled by setting the flag the signal handler sets, except in part E where a real SIGINT is sent to the process and the handler prompt is answered by a script',
                        'a default evaluation limit given with new=True before the first iteration may be resolved at the first limit check (interval model)']
     ctx.pmap(_dispatch, items)
 
 
 def replay(case):
     T = Tally()
+    if case.get('part') == 'E':
+        T2 = shard_sigint(case['cfg'])
+        return [v['detail'] for v in T2.violations.values()
+                if all(v['case'].get(f) == case.get(f) for f in ('transfer', 'answers'))]
     if case.get('part') == 'D':
         global FREQS, EXIT_ITERS
         FREQS, EXIT_ITERS = [case['savefreq']], [case['exit_during']]
